@@ -157,7 +157,7 @@ Spec == Init /\ [][Next]_vars
 \* the ndoc comment lines, i.e. the var line is line again -- no deviation)
 \* nested loadFunc overwrites the pending comment of the code builder; method bodies are compiled
 \* after every function has been loaded (typeLoader.methods), so they are not affected
-LazyClobberPresent == TRUE     \* set to FALSE once fixes/C09-lazyload-line-comment.diff is committed to /repo
+LazyClobberPresent == FALSE    \* set to FALSE once fixes/C09-lazyload-line-comment.diff is committed to /repo
 LazyClobber(e) == LazyClobberPresent /\ e.kind = "fwd" /\ e.ctx # "method" /\ FileKind = "xgo"
 CodeLine(e) == IF LazyClobber(e) THEN tail + 3 * (e.h - 1) + 1   \* the helper's `return x` line
                ELSE e.line
